@@ -299,3 +299,9 @@ func aliasesFor(rec FnNames, cur FnNames) map[string]string {
 	}
 	return al
 }
+
+// boxedInfo: what a MakeInterface instruction put into an interface value.
+type boxedInfo struct {
+	typ types.Type
+	val Val
+}
